@@ -63,7 +63,10 @@ pub(super) fn dispatch(repo: &gix::Repository, matches: &ArgMatches) -> Result<(
             .find_reference(stack.get_stack_refname())
             .expect("just found this stack state reference");
         let state_commit = state_ref.id().object()?.try_into_commit()?;
-        repo.edit_reference(gix::refs::transaction::RefEdit {
+        // Copying the branch first lets git refuse an existing name before that
+        // branch's stack state reference is overwritten.
+        stupid.branch_copy(None, new_branchname.as_ref())?;
+        if let Err(e) = repo.edit_reference(gix::refs::transaction::RefEdit {
             change: gix::refs::transaction::Change::Update {
                 log: gix::refs::transaction::LogChange {
                     mode: gix::refs::transaction::RefLog::AndReference,
@@ -77,8 +80,18 @@ pub(super) fn dispatch(repo: &gix::Repository, matches: &ArgMatches) -> Result<(
                 new_branchname.as_ref(),
             ))?,
             deref: false,
-        })?;
-        stupid.branch_copy(None, new_branchname.as_ref())?;
+        }) {
+            // The stack state reference could not be written: take the copied
+            // branch and its configuration back.
+            if let Ok(new_branch) = repo.get_branch(new_branchname) {
+                new_branch.delete().ok();
+            }
+            if let Ok(mut local_config_file) = repo.local_config_file() {
+                local_config_file.remove_section("branch", Some(new_branchname.as_ref().into()));
+                repo.write_local_config(local_config_file).ok();
+            }
+            return Err(e.into());
+        }
         // Opening the new stack creates its patch references.
         Stack::from_branch_name(repo, new_branchname, InitializationPolicy::RequireInitialized)?;
     } else {
